@@ -86,6 +86,9 @@ type C12Put struct {
 	Fill    int
 	SigMode string // valid | other-salt | other-seq | other-value | other-key | bitflip | zero
 	SigPos  int
+	// Reput: present the key, salt, seq and value of the last accepted mutable put again (a refresh),
+	// with this op's signature mode
+	Reput bool
 }
 
 type C12Op struct {
@@ -122,6 +125,7 @@ func genC12(t *rapid.T) C12Sc {
 				p.SaltLen = rapid.SampledFrom(c12SaltLens).Draw(t, "p.saltlen")
 				p.SigMode = rapid.SampledFrom([]string{"valid", "valid", "valid", "other-salt", "other-seq", "other-value", "other-key", "bitflip", "zero"}).Draw(t, "p.sigmode")
 				p.SigPos = rapid.IntRange(0, 511).Draw(t, "p.sigpos")
+				p.Reput = uniformInt(t, 4, "p.reput") == 0
 			}
 			op.Put = p
 		} else {
@@ -170,6 +174,12 @@ func runC12a(sc C12Sc, c *kit.Case) *kit.Violation {
 	targets := map[[20]byte]*c12Target{}
 	var order [][20]byte
 	nearLimit, wrongTuple := false, false
+	type lastPut struct {
+		keyIdx, saltLen int
+		seq             int64
+		encV            string
+	}
+	var last *lastPut
 
 	for oi, op := range sc.Ops {
 		switch op.Kind {
@@ -186,6 +196,12 @@ func runC12a(sc C12Sc, c *kit.Case) *kit.Violation {
 				key = b44Key(10 + p.Key)
 				salt = c12Salt(p.SaltLen)
 				seq = int64(oi + 1) // strictly increasing along the history: seq/CAS rules never interfere
+				if p.Reput && last != nil {
+					// same seq and same value as the stored item: a refresh, which the seq rule admits
+					key, salt, seq, encV = b44Key(10+last.keyIdx), c12Salt(last.saltLen), last.seq, last.encV
+					p.Key, p.SaltLen = last.keyIdx, last.saltLen
+					c.Label("reput-" + p.SigMode)
+				}
 				tgt = refmodel.Bep44MutableTarget(key.pub, salt)
 				switch p.SigMode {
 				case "valid":
@@ -195,7 +211,7 @@ func runC12a(sc C12Sc, c *kit.Case) *kit.Violation {
 				case "other-seq":
 					sig = refmodel.Bep44Sign(key.priv, salt, seq+1, []byte(encV))
 				case "other-value":
-					sig = refmodel.Bep44Sign(key.priv, salt, seq, []byte(makeValue(p.VKind, p.EncLen, byte(p.Fill+1))))
+					sig = refmodel.Bep44Sign(key.priv, salt, seq, []byte(makeValue(p.VKind, len(encV), byte(p.Fill+1))+"x"))
 				case "other-key":
 					sig = refmodel.Bep44Sign(b44Key(20+p.Key).priv, salt, seq, []byte(encV))
 				case "bitflip":
@@ -300,6 +316,9 @@ func runC12a(sc C12Sc, c *kit.Case) *kit.Violation {
 					order = append(order, tgt)
 				}
 				ct.seq, ct.encV, ct.has = seq, encV, true
+				if mutable {
+					last = &lastPut{p.Key, p.SaltLen, seq, encV}
+				}
 			}
 			c.Label("put-" + op.Via)
 			if valid {
